@@ -166,6 +166,9 @@ class EnumMarshaller(AbstractMarshaller[EnumT], tp.Generic[EnumT]):
         Args:
             val: The enum instance to marshal.
         """
+        # Any object may carry a `value` attribute, only a member of this enum is ours.
+        if not isinstance(val, self.origin):
+            raise ValueError(f"{val!r} is not a member of {self.t!r}")
         return val.value
 
 
